@@ -318,11 +318,15 @@ pub fn run_check(prop: &'static str, tier: &str, threads: usize, seed: u64) -> i
     }
 
     // ---- cluster scenarios, level by level
-    for (name, level) in &p.scenarios {
+    let n_scen = p.scenarios.len();
+    for (k, (name, level)) in p.scenarios.iter().enumerate() {
         if exit == 1 {
             break;
         }
         let remaining = budget - t0.elapsed().as_secs_f64();
+        // thorough: no single level may eat more than half of what is left while further
+        // levels are waiting (a level that is cut is reported as such, never as exhaustive)
+        let level_budget = if tier == "thorough" && k + 1 < n_scen { remaining * 0.5 } else { remaining };
         if remaining < 3.0 && completed_any {
             per.push(json!({"scenario": format!("{}/L{}", name, level), "skipped": "time budget exhausted"}));
             all_exhaustive = false;
@@ -339,7 +343,7 @@ pub fn run_check(prop: &'static str, tier: &str, threads: usize, seed: u64) -> i
         let sc = scen::leak(sc);
         let cfg = RunCfg {
             threads,
-            budget_s: remaining.max(5.0),
+            budget_s: level_budget.max(5.0),
             max_states: 600_000_000,
             depth_cap: 400,
             seed,
